@@ -154,27 +154,37 @@ Proof.
 Qed.
 Print Assumptions C02_start_end_of_line.
 
-(* up / down: in bounds for any argument; the target is
+(* up / down: defined and in bounds for EVERY count and preferred column (the
+   assert count >= 1 is gone: fix 46fed32); a negative count is the opposite
+   motion; for count >= 0 the target is
    (row -/+ min(count, available), min(preferred column, len of that line)) *)
-Theorem C02_up_down_in_bounds : forall d count pc r,
-  (get_cursor_up_position d count pc = Some r -> 0 <= dcur d + r <= len (dtext d)) /\
-  (get_cursor_down_position d count pc = Some r -> 0 <= dcur d + r <= len (dtext d)).
-Proof. intros. split; [apply up_in_bounds|apply down_in_bounds]. Qed.
+Theorem C02_up_down_in_bounds : forall d count pc,
+  (exists r, get_cursor_up_position d count pc = Some r) /\
+  (exists r, get_cursor_down_position d count pc = Some r) /\
+  (forall r, get_cursor_up_position d count pc = Some r -> 0 <= dcur d + r <= len (dtext d)) /\
+  (forall r, get_cursor_down_position d count pc = Some r -> 0 <= dcur d + r <= len (dtext d)) /\
+  (count < 0 ->
+   get_cursor_up_position d count pc = get_cursor_down_position d (- count) pc /\
+   get_cursor_down_position d count pc = get_cursor_up_position d (- count) pc).
+Proof.
+  intros d c pc. destruct (up_down_total d c pc) as [H1 H2].
+  split; [exact H1|]. split; [exact H2|].
+  split; [intros r; apply up_in_bounds|]. split; [intros r; apply down_in_bounds|].
+  apply up_down_negative.
+Qed.
 Print Assumptions C02_up_down_in_bounds.
 
 Theorem C02_up_lands : forall d count pc r,
-  valid d -> get_cursor_up_position d count pc = Some r ->
+  valid d -> 0 <= count -> get_cursor_up_position d count pc = Some r ->
   let row' := Z.max 0 (cursor_position_row d - count) in
-  1 <= count /\
   translate_index_to_position d (dcur d + r) =
   (row', Z.max 0 (Z.min (wanted_column d pc) (len (nth (Z.to_nat row') (lines d) [])))).
 Proof. exact up_lands. Qed.
 Print Assumptions C02_up_lands.
 
 Theorem C02_down_lands : forall d count pc r,
-  valid d -> get_cursor_down_position d count pc = Some r ->
+  valid d -> 0 <= count -> get_cursor_down_position d count pc = Some r ->
   let row' := Z.min (cursor_position_row d + count) (line_count d - 1) in
-  1 <= count /\
   translate_index_to_position d (dcur d + r) =
   (row', Z.max 0 (Z.min (wanted_column d pc) (len (nth (Z.to_nat row') (lines d) [])))).
 Proof. exact down_lands. Qed.
@@ -202,38 +212,46 @@ Theorem C02_start_end_of_document : forall d,
 Proof. intros d. split; [apply start_of_document_lands|apply end_of_document_lands]. Qed.
 Print Assumptions C02_start_end_of_document.
 
-(* last_non_blank_of_current_line_position: on a blank line the offset is
-   -col-1: it leaves the text (empty document) or the line (finding C02-F1,
-   DESIGN F9).  On a line with a non-blank character it is fine. *)
-Theorem C02_last_non_blank_in_bounds_refuted :
-  exists d, valid d /\
-    ~ (0 <= dcur d + last_non_blank_of_current_line_position d <= len (dtext d)).
-Proof. exact last_non_blank_in_bounds_refuted. Qed.
-Print Assumptions C02_last_non_blank_in_bounds_refuted.
-
-Theorem C02_last_non_blank_same_line_refuted :
-  exists d, valid d /\
-    0 <= dcur d + last_non_blank_of_current_line_position d <= len (dtext d) /\
-    ~ (- len (current_line_before_cursor d) <= last_non_blank_of_current_line_position d).
-Proof. exact last_non_blank_same_line_refuted. Qed.
-Print Assumptions C02_last_non_blank_same_line_refuted.
-
-(* partial: the hypothesis "the line is not blank" is what the fix removes;
-   missing: that the target character is the LAST non-blank one *)
-Theorem C02_last_non_blank_partial : forall d,
-  valid d -> rstrip_by is_space (current_line d) <> [] ->
+(* last_non_blank_of_current_line_position (after fix 1019c4b): always on the
+   current line and in bounds; strictly before the end of a line that has a
+   non-blank character; the line start on a blank line.
+   Not proved: that the target character is the LAST non-blank one (oracle). *)
+Theorem C02_last_non_blank : forall d, valid d ->
   - len (current_line_before_cursor d) <= last_non_blank_of_current_line_position d
-    < len (current_line_after_cursor d) /\
-  0 <= dcur d + last_non_blank_of_current_line_position d < len (dtext d).
-Proof. exact last_non_blank_partial. Qed.
-Print Assumptions C02_last_non_blank_partial.
+    <= len (current_line_after_cursor d) /\
+  0 <= dcur d + last_non_blank_of_current_line_position d <= len (dtext d) /\
+  (rstrip_by is_space (current_line d) <> [] ->
+   last_non_blank_of_current_line_position d < len (current_line_after_cursor d)) /\
+  (rstrip_by is_space (current_line d) = [] ->
+   last_non_blank_of_current_line_position d = - len (current_line_before_cursor d)).
+Proof. exact last_non_blank_same_line. Qed.
+Print Assumptions C02_last_non_blank.
 
-(* paragraphs: in bounds, and never in the wrong direction (any count) *)
-Theorem C02_paragraph_in_bounds : forall d count flag r, valid d ->
-  (start_of_paragraph d count flag = Some r -> 0 <= dcur d + r <= len (dtext d) /\ r <= 0) /\
-  (end_of_paragraph d count flag = Some r -> 0 <= dcur d + r <= len (dtext d) /\ 0 <= r).
+(* the function as it stood before the fix (finding C02-F1 = DESIGN F9, repaired
+   in /repo by 1019c4b) left the text, resp. the line, on a blank line *)
+Theorem C02_last_non_blank_pinned_in_bounds_refuted :
+  exists d, valid d /\
+    ~ (0 <= dcur d + last_non_blank_of_current_line_position_pinned d <= len (dtext d)).
+Proof. exact last_non_blank_pinned_in_bounds_refuted. Qed.
+Print Assumptions C02_last_non_blank_pinned_in_bounds_refuted.
+
+Theorem C02_last_non_blank_pinned_same_line_refuted :
+  exists d, valid d /\
+    0 <= dcur d + last_non_blank_of_current_line_position_pinned d <= len (dtext d) /\
+    ~ (- len (current_line_before_cursor d) <= last_non_blank_of_current_line_position_pinned d).
+Proof. exact last_non_blank_pinned_same_line_refuted. Qed.
+Print Assumptions C02_last_non_blank_pinned_same_line_refuted.
+
+(* paragraphs: defined, in bounds, and never in the wrong direction (any count) *)
+Theorem C02_paragraph_in_bounds : forall d count flag, valid d ->
+  (exists r, start_of_paragraph d count flag = Some r) /\
+  (exists r, end_of_paragraph d count flag = Some r) /\
+  (forall r, start_of_paragraph d count flag = Some r -> 0 <= dcur d + r <= len (dtext d) /\ r <= 0) /\
+  (forall r, end_of_paragraph d count flag = Some r -> 0 <= dcur d + r <= len (dtext d) /\ 0 <= r).
 Proof.
-  intros d c f r Hv. split; [now apply start_of_paragraph_in_bounds|now apply end_of_paragraph_in_bounds].
+  intros d c f Hv. destruct (paragraph_total d c f) as [H1 H2].
+  split; [exact H1|]. split; [exact H2|].
+  split; intros r; [now apply start_of_paragraph_in_bounds|now apply end_of_paragraph_in_bounds].
 Qed.
 Print Assumptions C02_paragraph_in_bounds.
 
@@ -425,7 +443,7 @@ Proof. exact C02w_next_word_ending_lands. Qed.
 Print Assumptions C02_next_word_ending_lands.
 
 (* find_previous_word_ending does NOT land on a word end when the cursor is at
-   the end of the text (finding C02-F2: "ab cd", cursor 5 -> -2, target 3, the
+   the end of the text (known finding C02-F2, not repaired in /repo: "ab cd", cursor 5 -> -2, target 3, the
    character before the target is the blank) ... *)
 Theorem C02_previous_word_ending_lands_refuted :
   exists d count WORD r,
@@ -435,7 +453,7 @@ Proof. exact C02w_previous_word_ending_lands_refuted. Qed.
 Print Assumptions C02_previous_word_ending_lands_refuted.
 
 (* ... and does everywhere else.  partial: the hypothesis cursor < len is what
-   fixes/C02-previous-word-ending-at-end-of-text.patch removes. *)
+   fixes/C02-previous-word-ending-with-forward-word.patch removes. *)
 Theorem C02_previous_word_ending_lands_partial : forall d count WORD r,
   valid d -> dcur d < len (dtext d) -> 1 <= count ->
   find_previous_word_ending d count WORD = Some r ->
